@@ -62,6 +62,100 @@ def clause_c(facts, rep):
     rep.require(n >= 5, 'C03.c: only %d length shifts found' % n)
 
 
+class NodeWord(dict):
+    """the first 8 bytes of a node seen through every alternative of its union (sv.len / o.len / a.len / raw.len / n.t
+    are one word, t.t is its low byte): member state for interpreting the length / type accessors"""
+    WORD = ('sv.len', 'o.len', 'a.len', 'raw.len', 'n.t')
+
+    def _norm(self, k):
+        return 'W' if k in self.WORD else k
+
+    def __contains__(self, k):
+        if k == 't.t':
+            return dict.__contains__(self, 'W')
+        return dict.__contains__(self, self._norm(k))
+
+    def __getitem__(self, k):
+        if k == 't.t':
+            return dict.__getitem__(self, 'W') & 0xff
+        return dict.__getitem__(self, self._norm(k))
+
+    def get(self, k, d=None):
+        return self[k] if k in self else d
+
+    def __setitem__(self, k, v):
+        if k == 't.t':
+            dict.__setitem__(self, 'W', (dict.get(self, 'W', 0) & ~0xff) | (v & 0xff))
+            return
+        dict.__setitem__(self, self._norm(k), v)
+
+    def copy(self):
+        n = NodeWord()
+        dict.update(n, self)
+        return n
+
+
+def clause_length_pack(facts, rep):
+    """the length / type word of a node, by evaluation (sv/minterp.py on the union word): after setLength(L, t) the node
+    reports Size() == L and GetType() == t; setLength(L) keeps the type; addLength / subLength move Size() by exactly
+    their argument and keep the type - for lengths 0, 1, 255, 256, 2^32, 2^56 - 1 and every container / string tag."""
+    from ..minterp import Interp, Unsupported, UndefinedBehaviour
+    tags = {}
+    for en in facts.enums:
+        if en.get('qn', '').endswith('TypeFlag') or en.get('name') == 'TypeFlag':
+            for c in en.get('consts', en.get('values', [])):
+                tags[c['name']] = int(c['value'] if 'value' in c else c['v'])
+    fs = {}
+    for fn in facts.functions:
+        if fn.cls_qn == 'sonic_json::GenericNode' and fn.blocks and 'SAlloc' not in fn.name and 'SimpleAllocator' not in fn.name:
+            fs.setdefault((fn.short, len(fn.params)), fn)
+    need = [('setLength', 2), ('setLength', 1), ('addLength', 1), ('subLength', 1), ('Size', 0), ('GetType', 0)]
+    rep.require(all(k in fs for k in need) and 'kObject' in tags, 'C03.pack: length / type accessors of GenericNode not all found: %s' % [k for k in need if k not in fs])
+    if not all(k in fs for k in need):
+        return
+
+    def call(name, n, mem, *args):
+        fn = fs[(name, n)]
+        r = Interp(fn, facts).run({p['id']: v for p, v in zip(fn.params, args)}, mem)
+        return r[0], r[2]
+    for k in need:
+        rep.fn(fs[k])
+    bad = None
+    cnt = 0
+    try:
+        for tn in ('kObject', 'kArray', 'kStringCopy', 'kStringFree', 'kStringConst', 'kRaw'):
+            if tn not in tags:
+                continue
+            t = tags[tn]
+            for L in (0, 1, 255, 256, 1 << 32, (1 << 56) - 1):
+                _, mem = call('setLength', 2, NodeWord(), L, t)
+                cnt += 1
+                if call('Size', 0, mem)[0] != L or call('GetType', 0, mem)[0] != t:
+                    bad = 'after setLength(%d, %s): Size() = %s, GetType() = %s' % (L, tn, call('Size', 0, mem)[0], call('GetType', 0, mem)[0])
+                    break
+                for L2 in (0, 7, (1 << 40) + 1):
+                    _, m2 = call('setLength', 1, mem, L2)
+                    if call('Size', 0, m2)[0] != L2 or call('GetType', 0, m2)[0] != t:
+                        bad = 'setLength(%d) on a %s of length %d: Size() = %s, GetType() = %s' % (L2, tn, L, call('Size', 0, m2)[0], call('GetType', 0, m2)[0])
+                if L <= (1 << 32):
+                    _, m3 = call('addLength', 1, mem, 3)
+                    if call('Size', 0, m3)[0] != L + 3 or call('GetType', 0, m3)[0] != t:
+                        bad = 'addLength(3) on a %s of length %d: Size() = %s, GetType() = %s' % (tn, L, call('Size', 0, m3)[0], call('GetType', 0, m3)[0])
+                    _, m4 = call('subLength', 1, m3, 2)
+                    if call('Size', 0, m4)[0] != L + 1 or call('GetType', 0, m4)[0] != t:
+                        bad = 'subLength(2) after addLength(3) on a %s of length %d: Size() = %s' % (tn, L, call('Size', 0, m4)[0])
+                if bad:
+                    break
+            if bad:
+                break
+    except UndefinedBehaviour as ex:
+        bad = 'undefined behaviour: %s' % ex
+    except Unsupported as ex:
+        raise AnalysisBroken('C03.pack: the length accessors cannot be evaluated: %s' % ex)
+    rep.check(bad is None, 'E5.length-pack', 'sonic_json::GenericNode', 'setLength / addLength / subLength / Size / GetType agree on the packed word (%d (length, tag) pairs)' % cnt,
+              fs[('setLength', 2)].loc, bad or '', facts.config)
+
+
 LEVEL = 'model_checking'
 EXPLANATION = ('the model is not hand-written: it is re-extracted from the clang CFG of the current source on every run, '
                'so traces_validated_against_impl is 0 by construction; obligations/discharged count the additional dataflow and constant rules')
@@ -208,6 +302,13 @@ def run(rep, tier):
         c01.clause_a(facts, rep, tier)
         clause_b(facts, rep)
         clause_c(facts, rep)
+        if cfg == 'K1':
+            try:
+                clause_length_pack(facts, rep)
+            except AnalysisBroken as ex:
+                rep.broken.append(str(ex))
+            rep.corroborate('E5.length-shift', 'E5.length-pack')
+            rep.corroborate_floor('C03.c:', 'E5.length-pack')
         clause_kind_predicates(facts, rep)
         from . import c19 as _c19
         _c19.clause_event_kind(facts, rep)    # each scalar event stores its value in its own kind (shared with C19)
